@@ -4,11 +4,22 @@
   Mirrors `pyipmi/interfaces/rmcp.py:Rmcp._send_and_receive` (max_retries = 0, unbridged
   target) together with `IpmiMsg.pack` / `Session.increment_sequence_number`, cut at every
   access to state shared between threads.  One call of `_send_and_receive` is the path
+  (`Sys.seqLocked = true`, the source with fixes/C04-2.diff: the lock is taken FIRST)
+
+    idle      with self.transaction_lock:                 (blocks while held)
+    lkLoad    v = self.next_sequence_number               (load,  inside the lock)    _inc_sequence_number
+    lkStore   self.next_sequence_number = (v + 1) % 64    (store, inside the lock)
+    lkHdr     header.rq_seq = self.next_sequence_number   (load,  inside the lock)
+
+  or (`seqLocked = false`, the source AS SHIPPED: sequence number and header before the lock)
 
     idle      v = self.next_sequence_number               (load,  OUTSIDE the lock)   _inc_sequence_number
     incStore  self.next_sequence_number = (v + 1) % 64    (store, OUTSIDE the lock)
     hdrLoad   header.rq_seq = self.next_sequence_number   (load,  OUTSIDE the lock)
     acquire   with self.transaction_lock:                 (blocks while held)
+
+  and then, in both,
+
     actLoad   if self.session.activated:                  (IpmiMsg.pack: the bump below only when activated)
     ssLoad    v = session.sequence_number                 } self.sequence_number += 1
     ssStore   session.sequence_number = v + 1             }
@@ -49,6 +60,7 @@
       actStore  self._session.activated = False                         (outside the lock)
 
   `Sys.join` selects the stopper: `false` = as shipped (`return stopped.set`), `true` = set and join.
+  `Sys.seqLocked` selects where the IPMB sequence number is allocated (see above).
 
 
   `step s t` runs the next atomic action of thread `t` (`none`: no such thread, finished, or
@@ -63,7 +75,10 @@ open PyIpmi.Spec.Threads (WEv)
 (`harness/translate/threads.py`) reads it from the AST on every run (`Gen/Threads.lean`). -/
 structure Shape where
   lockBlocks : Nat                  -- `with self.transaction_lock:` blocks in `_send_and_receive`
-  incFirst : Bool                   -- first statement is `self._inc_sequence_number()`
+  incFirst : Bool                   -- the first statement executed is `self._inc_sequence_number()`: first statement of
+                                    -- the function, or of the lock block when the function begins with that
+  seqInLock : Bool                  -- no mention of `next_sequence_number` / `_inc_sequence_number` outside the lock
+                                    -- block: the VARIANT `seqLocked`
   incCalls : Nat
   ioOutsideLock : Nat               -- socket / queue accesses of `_send_and_receive` outside the block
   sendsInLock : Nat                 -- `self._send_ipmi_msg` calls inside the block
@@ -94,15 +109,17 @@ structure Shape where
   closeDeactivatesLast : Bool       -- last statement: `self._session.activated = False`; no other store to it
 deriving DecidableEq, Repr
 
-/-- The shape the step function below hard-wires: the IPMB sequence number is bumped and read before
-the lock (`idle`, `incStore`, `hdrLoad`), one lock block (`acquire` … `release`) holds the session
+/-- The shape the step function below hard-wires: the IPMB sequence number is bumped first and read into
+the header, one lock block (`acquire` / `idle` … `release`) holds the session
 sequence bump and the packing (`ssLoad` … `ssHdr`, inside `_send_ipmi_msg`), the one transmission
-(`send`) and the reception (`recv`, reading `_q` first); nothing is put back into `_q`; every caller,
+(`send`) and the reception (`recv`, reading `_q` first; the drain of the socket, if any, is inside too);
+nothing is put back into `_q`; every caller,
 the keep-alive included, runs this program; the keep-alive loop and `close_session` are the ones described
-above.  The one thing left open is what the stopper returned by `call_repeatedly` does after setting the
-event: `join = false` as shipped, `join = true` with fixes/C14-1.diff. -/
-def Shape.expected (join : Bool) : Shape :=
-  { lockBlocks := 1, incFirst := true, incCalls := 1, ioOutsideLock := 0, sendsInLock := 1, recvsInLock := 1,
+above.  Two things are left open: what the stopper returned by `call_repeatedly` does after setting the
+event (`join = false` as shipped, `join = true` with fixes/C14-1.diff), and whether the sequence number is
+allocated and read inside the lock block (`seqLocked = true` with fixes/C04-2.diff) or before it (as shipped). -/
+def Shape.expected (join : Bool) (seqLocked : Bool := true) : Shape :=
+  { lockBlocks := 1, incFirst := true, seqInLock := seqLocked, incCalls := 1, ioOutsideLock := 0, sendsInLock := 1, recvsInLock := 1,
     qGetInLock := 1, qPut := 0, packInSar := 0, packInSend := 1, sendBuildsIpmiMsg := true, packIncs := 1,
     packIncGuardedByActivated := true, seqAdd := 1, seqMod := 64, keepAliveLocked := true, rawLocked := true,
     msgLocked := true, sessAdd := 1, sessLimit := 0xffffffff, sessWrapTo := 1,
@@ -118,6 +135,7 @@ deriving DecidableEq, Repr
 
 inductive PC where
   | idle | incStore | hdrLoad | acquire
+  | lkLoad | lkStore | lkHdr
   | actLoad | ssLoad | ssStore | ssChk | ssWrap | ssHdr (k : Nat) | send | recv | requeue | release
   | kaWait
   | await | stopSet | joinKa | chkAct | actStore
@@ -161,10 +179,11 @@ structure Sys where
   activated : Bool := true     -- Session.activated
   stopped : Bool := false      -- the Event of call_repeatedly
   join : Bool := true          -- variant: the stopper joins the keep-alive thread
+  seqLocked : Bool := true     -- variant: the IPMB sequence number is allocated inside the lock block
 deriving Repr
 
 def inLock : PC → Bool
-  | .actLoad | .ssLoad | .ssStore | .ssChk | .ssWrap | .ssHdr _ | .send | .recv | .requeue | .release => true
+  | .lkLoad | .lkStore | .lkHdr | .actLoad | .ssLoad | .ssStore | .ssChk | .ssWrap | .ssHdr _ | .send | .recv | .requeue | .release => true
   | _ => false
 
 def Sys.upd (s : Sys) (t : Nat) (th : Thr) : Sys := { s with thr := s.thr.set t th }
@@ -193,7 +212,15 @@ def hasKa (l : List Thr) : Bool := l.any fun x => x.kind == .keepAlive
 /-- The action of thread `t` (whose record is `th`) at each program point. -/
 def stepThr (s : Sys) (t : Nat) (th : Thr) : Option Sys :=
   match th.pc with
-  | .idle => some (s.upd t { th with reg := s.nextSeq, pc := .incStore })
+  | .idle =>
+    if s.seqLocked then
+      match s.lock with
+      | none => some ({ s with lock := some t }.upd t { th with pc := .lkLoad })
+      | some _ => none
+    else some (s.upd t { th with reg := s.nextSeq, pc := .incStore })
+  | .lkLoad => some (s.upd t { th with reg := s.nextSeq, pc := .lkStore })
+  | .lkStore => some ({ s with nextSeq := (th.reg + 1) % 64 }.upd t { th with pc := .lkHdr })
+  | .lkHdr => some (s.upd t { th with hdr := s.nextSeq, pc := .actLoad })
   | .incStore => some ({ s with nextSeq := (th.reg + 1) % 64 }.upd t { th with pc := .hdrLoad })
   | .hdrLoad => some (s.upd t { th with hdr := s.nextSeq, pc := .acquire })
   | .acquire =>
@@ -268,7 +295,10 @@ deriving DecidableEq, Repr
 
 def labelThr (s : Sys) (th : Thr) : Option Act :=
   match th.pc with
-  | .idle => some (.ldNS s.nextSeq)
+  | .idle => if s.seqLocked then (if s.lock.isNone then some .acq else none) else some (.ldNS s.nextSeq)
+  | .lkLoad => some (.ldNS s.nextSeq)
+  | .lkStore => some (.stNS ((th.reg + 1) % 64))
+  | .lkHdr => some (.ldNS s.nextSeq)
   | .incStore => some (.stNS ((th.reg + 1) % 64))
   | .hdrLoad => some (.ldNS s.nextSeq)
   | .acquire => if s.lock.isNone then some .acq else none
@@ -324,6 +354,7 @@ structure Cfg where
   ka : Option Nat := none        -- the keep-alive thread (it comes last): how often its interval may elapse
   closer : Option Nat := none    -- the application thread that ends with `close_session`
   join : Bool := true            -- the stopper of `call_repeatedly` joins the thread (false: as shipped)
+  seqLocked : Bool := true       -- sequence number allocated inside the lock block (false: as shipped)
 
 def initThr (closer : Option Nat) (i : Nat) (p : Nat × Nat) : Thr :=
   if closer = some i then
@@ -335,7 +366,7 @@ def initKa (n : Nat) : Thr := { pc := .kaWait, todo := n, cmd := 1, kind := .kee
 
 def init (c : Cfg) : Sys :=
   { nextSeq := c.nextSeq, sessSeq := c.sessSeq, lock := none, q := [], sock := [], serial := 0,
-    wire := [], xl := c.xl, join := c.join,
+    wire := [], xl := c.xl, join := c.join, seqLocked := c.seqLocked,
     thr := c.threads.mapIdx (initThr c.closer) ++ (match c.ka with | some n => [initKa n] | none => []) }
 
 /-- The wire log in transmission order. -/
